@@ -17,6 +17,7 @@ from ..ref import calref, tzref
 from . import c12
 
 ID = "C16"
+AMBIENT = {"locale": "fr"}     # this module varies the other setting itself
 US = 1_000_000
 _TZ = {}
 NMAX = {"month": 6, "quarter": 15, "year": 54}
